@@ -61,3 +61,56 @@ def run():
                             return checked, dict(where, observed='device #%d: input %r, limits [%r, %r], flags zi/zl/zu = %r/%r/%r' % (
                                 k, float(u[k]), float(lo[k]), float(up[k]), zi[k], zl[k], zu[k]))
     return checked, (None if binding > 0 else {'observed': 'no limiter was binding in any inspected instant: the check is vacuous'})
+
+
+STORED_CASES = [('ieee14/ieee14_ac8b.xlsx', 3.0), ('ieee14/ieee14_fault.xlsx', 2.5), ('kundur/kundur_aw.xlsx', 3.0)]
+
+
+def run_stored():
+    """every stored instant of whole runs: the state behind each anti-windup limiter with constant limits stays inside [lower, upper]
+    (tolerance 5e-4: five times the Newton tolerance of the run; the unchanged tree stays below 1e-4), and at least one such state sat on
+    a limit and was released again (else the check would be vacuous)."""
+    import contextlib
+    import io
+    import logging
+    import os
+    import numpy as np
+    import andes
+    from andes.core.discrete import AntiWindup, AntiWindupRate
+    from andes.core.var import BaseVar
+    logging.getLogger('andes').setLevel(logging.CRITICAL)
+    tol = 5e-4
+    checked = released = 0
+    for case, tf in STORED_CASES:
+        path = andes.get_case(case)
+        if not os.path.isfile(path):
+            continue
+        with contextlib.redirect_stdout(io.StringIO()), contextlib.redirect_stderr(io.StringIO()):
+            ss = andes.load(path, default_config=True, no_output=True)
+            ss.PFlow.run()
+            ss.TDS.config.tf = tf
+            if not ss.TDS.run():
+                return checked, {'case': case, 'observed': 'run to t=%r failed' % tf}
+        t, X = np.array(ss.dae.ts.t), np.array(ss.dae.ts.x)
+        for mname, m in ss.models.items():
+            if m.n == 0:
+                continue
+            for dname, d in m.discrete.items():
+                if not isinstance(d, AntiWindup) or isinstance(d, AntiWindupRate) or d.no_lower or d.no_upper:
+                    continue
+                if isinstance(d.lower, BaseVar) or isinstance(d.upper, BaseVar) or not hasattr(d.u, 'a') or len(np.atleast_1d(d.u.a)) == 0:
+                    continue
+                lo, up = limits(d)
+                xs = X[:, np.atleast_1d(d.u.a)]
+                checked += xs.size
+                exc = np.maximum(xs - up[None, :], lo[None, :] - xs)
+                at = exc >= -1e-7
+                for k in range(xs.shape[1]):
+                    idx = np.where(at[:, k])[0]
+                    if len(idx) and np.any(~at[idx[0]:, k]):
+                        released += 1
+                if np.any(exc > tol):
+                    i, k = np.unravel_index(int(np.argmax(exc)), exc.shape)
+                    return checked, {'case': case, 'limiter': '%s.%s' % (mname, dname), 't': float(t[i]), 'device': int(k),
+                                     'observed': 'stored state %r outside [%r, %r] by %.3e' % (float(xs[i, k]), float(lo[k]), float(up[k]), float(exc[i, k]))}
+    return checked, (None if released > 0 else {'observed': 'no anti-windup state was pegged and released in any run: the check is vacuous'})
